@@ -135,9 +135,12 @@ fn eat_metric(parser: &mut Parser, recovery: TokenSet) -> bool {
             expect_variation_location_and_value(parser, recovery.add(Kind::RParen))
         }) {
             while !parser.at_eof() && !parser.matches(0, Kind::RParen) {
+                let before = parser.nth_range(0).start;
                 if !parser.in_node(AstKind::LocationValueNode, |parser| {
                     eat_variation_location_and_value(parser, recovery.add(Kind::RParen))
-                }) {
+                }) || parser.nth_range(0).start == before
+                {
+                    // nothing consumed: stop instead of reporting the same error forever
                     break;
                 }
             }
